@@ -138,7 +138,8 @@ class Impl:
             return "err TypeError"
     def R(self, s): return float(Fr(s)) if "/" in s else (int(s) if re.fullmatch(r"-?\d+", s) else float(s))
     def op_reset(self):
-        self.o = {}; self.pep = PEP(); return "ok"
+        import PEPit
+        self.o = {"nullP": PEPit.null_point, "nullE": PEPit.null_expression}; self.pep = PEP(); return "ok"
     def op_fn_decl(self, n, cls, reuse, inf, *rest):
         part = None
         rest = list(rest)
@@ -163,6 +164,12 @@ class Impl:
         self.o[n] = self.pep.declare_function(C, **kw); return "ok"
     def op_fn_adjoint(self, n, f): self.o[n] = self.o[f].T; return "ok"
     def op_fn_lin(self, n, c1, a, c2, b): self.o[n] = self.R(c1) * self.o[a] + self.R(c2) * self.o[b]; return "ok"
+    def op_fn_add(self, n, a, b): self.o[n] = self.o[a] + self.o[b]; return "ok"
+    def op_fn_sub(self, n, a, b): self.o[n] = self.o[a] - self.o[b]; return "ok"
+    def op_fn_setparam(self, f, i, v):
+        import inspect
+        names = [p_ for p_ in inspect.signature(type(self.o[f]).__init__).parameters if p_ in ("mu", "L", "M", "D", "beta", "rho")]
+        setattr(self.o[f], names[int(i)], float(self.R(v))); return "ok"
     def op_fn_setv(self, f, p): self.o[f].v = self.o[p]; return "ok"
     def op_pt_leaf(self, n): self.o[n] = Point(); return "ok"
     def op_pt_leafn(self, n, nm): self.o[n] = Point(name=nm); return "ok"
@@ -220,7 +227,11 @@ class Impl:
     def op_pep_metric(self, e): self.pep.set_performance_metric(self.o[e]); return "ok"
     def op_pep_psd(self, n, *cells): self.pep.add_psd_matrix(self._mat(n, cells)); return "ok"
     def op_part_decl(self, n, d): self.o[n] = self.pep.declare_block_partition(d=int(d)); return "ok"
+    def op_part_new(self, n, d):
+        from PEPit import BlockPartition
+        self.o[n] = BlockPartition(d=int(d)); return "ok"          # the documented direct constructor
     def op_part_block(self, n, b, x, k): self.o[n] = self.o[b].get_block(self.o[x], int(k)); return "ok"
+    def op_part_addcons(self, b, c): self.o[b].add_constraint(self.o[c]); return "ok"
     def op_class_set(self, f): self.o[f].set_class_constraints(); return "ok"
     def op_solve_collect(self):
         self.wrapper = TeeWrapper() if os.environ.get("PEPV_TEE") else ScriptedWrapper()
@@ -242,6 +253,53 @@ class Impl:
         sym = [c for c in calls if c[0] == "appendsparsesymmat"][0]
         ok = any(c[0] == "putbarcj" and c[1] == 0 and list(c[3]) == [1.0] for c in calls) and any(c[0] == "putobjsense" and c[1] == "minimize" for c in calls)
         return ("heur " if ok else "heur-bad-objective ") + canon([("%s_%s" % (pad(i), pad(j)), showrat(v)) for i, j, v in zip(sym[2], sym[3], sym[4])])
+    def op_dump_cvx(self, seed):
+        """the REAL CvxpyWrapper on the list of items collected by the last `solve.collect`: kinds of the cvxpy
+        constraints it builds, residual of every (in)equality at random integer values of G, F and of the auxiliary
+        LMI variables, and `_recover_dual_values` on tagged duals (solver constraint number i carries 5000 + i)"""
+        import cvxpy as cp
+        from cvxpy.constraints import PSD
+        from PEPit.wrappers.cvxpy_wrapper import CvxpyWrapper
+        rng = np.random.default_rng(int(seed))
+        w = CvxpyWrapper(verbose=0)
+        w.set_main_variables()
+        k = 0
+        for kind, item in self.wrapper.sent:
+            if kind == "C": w.send_constraint_to_solver(item)
+            else: w.send_lmi_constraint_to_solver(k, item); k += 1
+        cons = w._list_of_solver_constraints
+        n, m = Point.counter, Expression.counter
+        A = rng.integers(-3, 4, size=(n, n)).astype(float); G = A + A.T
+        F = rng.integers(-4, 5, size=(m,)).astype(float)
+        w.G.value = G; w.F.value = F
+        Ms = []
+        for c in cons[1:]:
+            if isinstance(c, PSD):
+                var = c.variables()[0]; q = var.shape[0]
+                B = rng.integers(-5, 6, size=(q, q)).astype(float); var.value = B + B.T; Ms.append(B + B.T)
+        kinds, vals = [], []
+        for i, c in enumerate(cons):
+            if isinstance(c, PSD): kinds.append("P%d" % c.args[0].shape[0])
+            else:
+                kinds.append("E" if type(c).__name__ in ("Equality", "Zero") else "L" if type(c).__name__ in ("Inequality", "NonPos") else type(c).__name__)
+                vals.append((pad(i), showrat(float(np.asarray(c.expr.value).reshape(-1)[0]))))
+        for i, c in enumerate(cons):
+            if isinstance(c, PSD): c.save_dual_value(np.eye(c.args[0].shape[0]) * (5000 + i))
+            else: c.save_dual_value(np.array(float(5000 + i)))
+        class _P: pass
+        w.prob = _P(); w.prob.constraints = cons
+        try:
+            duals, residual = w._recover_dual_values()
+            toks = []
+            for d in duals:
+                d = np.asarray(d, dtype=float)
+                toks.append("empty" if d.size == 0 else str(int(round(float(d.reshape(-1)[0])))))
+            dual_s = ",".join(toks)
+        except (AssertionError, IndexError) as ex:
+            dual_s = "EXC " + type(ex).__name__
+        rows = lambda Mx: ";".join(",".join(showrat(v) for v in row) for row in Mx)
+        self.last_line = "dump.cvx G=%s F=%s M=%s" % (rows(G), ",".join(showrat(v) for v in F), "|".join(rows(Mx) for Mx in Ms))
+        return "kinds=" + ",".join(kinds) + " vals={" + ",".join("%s:%s" % kv for kv in vals) + "} duals=" + dual_s
     def op_dump_dense(self):
         from PEPit.tools.expressions_to_matrices import expression_to_matrices
         items = []
@@ -307,6 +365,38 @@ class Impl:
     def op_eval_ex(self, e): return self._ev(self.o[e].eval)
     def op_eval_cons(self, c): return self._ev(self.o[c].eval)
     def op_eval_dual(self, c): return self._ev(self.o[c].eval_dual)
+    def op_psd_new(self, name, n, *cells):
+        from PEPit import PSDMatrix
+        n = int(n)
+        def cell(c):
+            if c.startswith("#"):
+                q = Fr(c[1:]); return int(q) if q.denominator == 1 else float(q)
+            return self.o[c]
+        rows = [[cell(cells[i * n + j]) for j in range(n)] for i in range(n)]
+        if name.startswith("ma"):
+            # the operand is an ndarray of objects (documented: any iterable of iterables): it must not be altered nor aliased
+            arr = np.empty((n, n), dtype=object)
+            for i in range(n):
+                for j in range(n): arr[i, j] = rows[i][j]
+            before = [[arr[i, j] for j in range(n)] for i in range(n)]
+            m = PSDMatrix(arr); self.o[name] = m
+            intact = all(arr[i, j] is before[i][j] for i in range(n) for j in range(n)) and m.matrix_of_expressions is not arr
+            return "ok" if intact else "ok OPERAND-ALTERED (the ndarray given to PSDMatrix was modified in place or is aliased by it)"
+        self.o[name] = PSDMatrix(rows); return "ok"
+    def op_dump_psd(self, m): return show_psd(self.o[m])
+    def op_pep_addpsd(self, m): self.pep.list_of_psd.append(self.o[m]); return "ok"
+    def op_fn_addpsd(self, f, m): self.o[f].list_of_psd.append(self.o[m]); return "ok"
+    def op_eval_psd(self, m):
+        try: v = self.o[m].eval()
+        except ValueError: return "err ValueError"
+        except TypeError: return "err TypeError"
+        return "ok " + ";".join(",".join(showrat(float(x)) for x in row) for row in v)
+    def op_eval_psddual(self, m):
+        try: v = self.o[m].eval_dual()
+        except ValueError: return "err ValueError"
+        except TypeError: return "err TypeError"
+        v = np.array(v, dtype=float); t = v[0, 0]
+        return "ok " + showrat(float(t)) if np.array_equal(v, t * np.eye(v.shape[0])) else "ok " + repr(v.tolist())
     def op_eval_ptn(self, p): return self._ev(lambda: float(np.dot(self.o[p].eval(), self.o[p].eval())))
     def op_check_afn(self, f): return "same"
     def op_dump_fn(self, f): return dump_fn(self.o[f])
@@ -314,7 +404,13 @@ class Impl:
     def op_dump_tables(self, f): return dump_tables(self.o[f])
     def op_dump_part(self, b): return dump_part(self.o[b])
     def op_dump_sent(self):
-        return " ## ".join(("C:" + show_cons(c)) if k == "C" else ("P:" + show_psd(c)) for k, c in self.wrapper.sent)
+        out = " ## ".join(("C:" + show_cons(c)) if k == "C" else ("P:" + show_psd(c)) for k, c in self.wrapper.sent)
+        # the PEP's own record of what it sent (what check_feasibility and assign_dual_values walk) must be what the wrapper received
+        tc = [c for k, c in self.wrapper.sent if k == "C"]; tp = [c for k, c in self.wrapper.sent if k == "P"]
+        pc, pp = self.pep._list_of_constraints_sent_to_wrapper, self.pep._list_of_psd_sent_to_wrapper
+        if len(tc) != len(pc) or any(a is not b for a, b in zip(tc, pc)) or len(tp) != len(pp) or any(a is not b for a, b in zip(tp, pp)):
+            out += " ## TRACKING: the PEP recorded %d constraints / %d LMIs as sent, the wrapper received %d / %d" % (len(pc), len(pp), len(tc), len(tp))
+        return out
     def op_dump_pt(self, p): return pd(self.o[p])
     def op_dump_ex(self, e): return ed(self.o[e])
     def op_dump_cons(self, c): return show_cons(self.o[c])
@@ -335,17 +431,7 @@ class Impl:
 
 
 # ------------------------------------------------------------------ generators
-CLASSES = {  # class -> list of parameter values (dyadic where possible)
-    "ConvexFunction": [], "StronglyConvexFunction": ["1/4"], "ConvexLipschitzFunction": ["3/2"],
-    "ConvexIndicatorFunction": ["5/2"], "ConvexSupportFunction": ["3/2"], "ConvexQGFunction": ["2"],
-    "RsiEbFunction": ["1/4", "2"], "SmoothConvexFunction": ["2"], "SmoothConvexLipschitzFunction": ["2", "3/2"],
-    "SmoothFunction": ["2"], "SmoothStronglyConvexFunction": ["1/4", "2"],
-    "SmoothStronglyConvexQuadraticFunction": ["1/4", "2"],
-    "CocoerciveOperator": ["1/4"], "CocoerciveStronglyMonotoneOperator": ["1/4", "1/2"], "LinearOperator": ["2"],
-    "LipschitzOperator": ["2"], "LipschitzStronglyMonotoneOperator": ["1/4", "2"], "MonotoneOperator": [],
-    "NegativelyComonotoneOperator": ["1/8"], "NonexpansiveOperator": [], "SkewSymmetricLinearOperator": ["2"],
-    "StronglyMonotoneOperator": ["1/4"], "SymmetricLinearOperator": ["1/4", "2"],
-}
+from ocommon import CLASSES
 W = ["1", "2", "-1", "1/2", "4", "-2", "0", "1/4", "-1/2", "8", "1/8"]      # powers of two: products AND quotients stay exact in floating point (a 1e-17 residue of 1/3 or of 1/(3/4) changes which terms exist)
 
 
@@ -360,13 +446,21 @@ class Prog:
     def newc(self): self.nc += 1; n = "c%d" % self.nc; self.C.append(n); return n
     def newf(self): self.nf += 1; n = "f%d" % self.nf; self.F.append(n); return n
     def decl(self, cls, reuse=None, inf=False, partition=None):
-        n = self.newf(); ps = list(CLASSES.get(cls, []))
-        if cls == "BlockSmoothConvexFunction": ps = ["1", "2", "4"][:partition[1]]
+        n = self.newf(); ps = list(self.rnd.choice(CLASSES.get(cls, [[]])))
+        if cls == "BlockSmoothConvexFunction": ps = self.rnd.choice([["1", "2", "4"], ["1", "1", "1"], ["2", "2", "1/2"]])[:partition[1]]
         if inf: ps = ps[:-1]
         r = self.rnd.random() < .5 if reuse is None else reuse
         self.emit("fn.decl %s %s %d %d %s%s" % (n, cls, r, inf, " ".join(ps), (" partition=" + partition[0]) if partition else ""))
-        self.fcls[n] = cls
+        self.fcls[n] = cls; self.fparams = getattr(self, "fparams", {}); self.fparams[n] = (cls, bool(inf))
         return n
+    def setparam(self, f):
+        """another admissible parameter tuple for an existing function (same class): `f.mu, f.L = ...`"""
+        cls, inf = self.fparams.get(f, (None, False))
+        tups = [t for t in CLASSES.get(cls, [[]]) if t]
+        if not tups or cls == "BlockSmoothConvexFunction": return
+        t = list(self.rnd.choice(tups))
+        if inf: t = t[:-1]
+        for i, v in enumerate(t): self.emit("fn.setparam %s %d %s" % (f, i, v))
     def point(self):
         r = self.rnd.random()
         if r < .4 or len(self.P) < 2:
@@ -394,7 +488,7 @@ def gen_class(seed):
     cls = rnd.choice(list(CLASSES) + ["BlockSmoothConvexFunction"])
     for _ in range(rnd.randint(1, 2)): p.point()
     if cls == "BlockSmoothConvexFunction":
-        d = rnd.randint(1, 3); p.emit("part.decl b1 %d" % d); f = p.decl(cls, partition=("b1", d))
+        d = rnd.randint(1, 3); p.emit("%s b1 %d" % (rnd.choice(["part.decl", "part.decl", "part.new"]), d)); f = p.decl(cls, partition=("b1", d))
     else:
         inf = cls in ("ConvexIndicatorFunction", "ConvexSupportFunction") and rnd.random() < .3
         f = p.decl(cls, inf=inf)
@@ -415,7 +509,7 @@ def gen_collect(seed):
     rnd = random.Random(seed); p = Prog(rnd)
     for _ in range(2): p.point()
     nb = rnd.randint(0, 1)
-    if nb: p.emit("part.decl b1 %d" % rnd.randint(1, 3))
+    if nb: p.emit("%s b1 %d" % (rnd.choice(["part.decl", "part.decl", "part.new"]), rnd.randint(1, 3)))
     for _ in range(rnd.randint(1, 3)):
         cls = rnd.choice(list(CLASSES))
         p.decl(cls)
@@ -435,24 +529,37 @@ def gen_collect(seed):
         a, b = rnd.choice(p.P), rnd.choice(p.P); n = p.newe(); p.emit("ex.ip %s %s %s" % (n, a, b))
         if len(p.E) > 1 and rnd.random() < .5:
             other = rnd.choice(p.E[:-1])
-            m = p.newe(); p.emit("ex.lin %s %s %s %s %s" % (m, rnd.choice(W), n, rnd.choice(W), other)); return m
+            # coefficients of very different magnitude (2^-30, 2^-40, 2^20): the data handed to the solver must keep them
+            wa = rnd.choice(W) if rnd.random() < .85 else rnd.choice(["1/1073741824", "1/1099511627776", "1048576", "-1/1073741824"])
+            m = p.newe(); p.emit("ex.lin %s %s %s %s %s" % (m, wa, n, rnd.choice(W), other)); return m
         return n
     for _ in range(rnd.randint(1, 3)):
         e = expr(); c = p.newc()
         p.emit(rnd.choice(["cons.lec %s %s 1", "cons.gec %s %s 1/2", "cons.eqc %s %s 2"]) % (c, e)); p.emit("pep.addcons %s" % c)
+        if rnd.random() < .25: p.emit("fn.addcons %s %s" % (rnd.choice(p.F), c))       # the same Constraint object registered twice: sent twice
     for _ in range(rnd.randint(0, 2)):
         e1, e2 = expr(), expr(); c = p.newc(); p.emit(rnd.choice(["cons.le", "cons.ge", "cons.eq"]) + " %s %s %s" % (c, e1, e2))
         p.emit("fn.addcons %s %s" % (rnd.choice(p.F), c))
+    if nb and rnd.random() < .5:
+        e = expr(); c = p.newc(); p.emit("cons.lec %s %s 1" % (c, e)); p.emit("part.addcons b1 %s" % c)        # a user constraint attached to the partition
     if rnd.random() < .5:
         cells = [expr() for _ in range(4)]; p.emit("pep.psd 2 " + " ".join(cells))
     if rnd.random() < .3:
         cells = [expr() for _ in range(4)]; p.emit("fn.psd %s 2 " % rnd.choice(p.F) + " ".join(cells))
     for _ in range(rnd.randint(1, 2)): p.emit("pep.metric %s" % expr())
     p.emit("solve.collect"); p.emit("dump.sent"); p.emit("dump.counters")
+    p.emit("dump.cvx %d" % rnd.randint(0, 10 ** 6))
     if os.environ.get("PEPV_TEE"):
         p.emit("dump.task"); p.emit("dump.dense")
         if rnd.random() < .5: p.emit("dump.heur %d" % rnd.randint(0, 10 ** 6))
     if rnd.random() < .4:
+        # a second solve, possibly after the user edited the model: a constraint attached to the partition, one more sample
+        if nb and rnd.random() < .5:
+            e = expr(); c = p.newc(); p.emit("cons.gec %s %s 1/2" % (c, e)); p.emit("part.addcons b1 %s" % c)
+        if rnd.random() < .3: p.sample_ops(rnd.choice(leaves), 1)
+        if rnd.random() < .3: p.setparam(rnd.choice(leaves))
+        if nb and rnd.random() < .3:
+            x = rnd.choice(p.P); n = p.newp(); p.emit("part.block %s b1 %s 0" % (n, x))
         p.emit("solve.collect"); p.emit("dump.sent"); p.emit("dump.counters")
     return p.lines
 
@@ -505,7 +612,11 @@ def gen_resolve(seed):
         return n
     def cons():
         e = expr(); c = p.newc(); p.emit(rnd.choice(["cons.lec %s %s 1", "cons.gec %s %s 1/2", "cons.eqc %s %s 2"]) % (c, e)); return c
-    for _ in range(rnd.randint(1, 2)): p.emit("pep.addcons %s" % cons())
+    for _ in range(rnd.randint(1, 2)):
+        c_ = cons(); p.emit("pep.addcons %s" % c_)
+        if rnd.random() < .25: p.emit("fn.addcons %s %s" % (rnd.choice(p.F), c_))       # registered twice: sent twice, one multiplier exposed
+    for _ in range(rnd.choice([0, 0, 2, 3])):
+        p.emit("fn.addcons %s %s" % (rnd.choice(p.F), cons()))        # several constraints (with constant terms) on one function
     p.emit("pep.metric %s" % expr())
     if rnd.random() < .5:
         a = expr(); inner = expr(); b = p.newe(); p.emit("ex.addc %s %s %s" % (b, inner, rnd.choice(["1", "-2", "1/2"])))
@@ -518,18 +629,64 @@ def gen_resolve(seed):
     # must not disturb the value of that leaf
     lead = p.P[0]; other = rnd.choice(p.P); q = p.newp(); p.emit("pt.lin %s 1 %s %s %s" % (q, lead, rnd.choice(["-1/2", "2", "-1"]), other))
     held_c = [cons() for _ in range(rnd.randint(0, 2))]      # constraints never sent
+    # PSDMatrix objects held by name: scalar entries (also at [0,0]), entries written differently below the diagonal;
+    # added to the PEP, to a function, or kept as a free-standing diagnostic matrix
+    mats = []
+    for _ in range(rnd.randint(0, 2)):
+        m = "%s%d" % (rnd.choice(["ma", "ml"]), len(p.lines)); n_ = rnd.choice([1, 2, 2, 3])
+        def cell(): return rnd.choice(["#1", "#0", "#2", "#-1", "#1/2"]) if rnd.random() < .35 else expr()
+        up = {}
+        cells = []
+        for i in range(n_):
+            for j in range(n_):
+                if j < i and rnd.random() < .6: cells.append(up[(j, i)])
+                else:
+                    c_ = cell(); up[(i, j)] = c_; cells.append(c_)
+        p.emit("psd.new %s %d %s" % (m, n_, " ".join(cells)))
+        if all(c_.startswith("#") for c_ in cells) and not m.startswith("ma"): continue        # raises TypeError on both sides: the name is never bound
+        mats.append(m)
+        r_ = rnd.random()
+        if r_ < .4: p.emit("pep.addpsd %s" % m)
+        elif r_ < .7: p.emit("fn.addpsd %s %s" % (rnd.choice(p.F), m))
+    if rnd.random() < .35:
+        # a leaf that stays in a decomposition with weight exactly 0 (products are not pruned): `0 * f(x)`, `(0 * g) * x`;
+        # asked before any solve it must raise like any expression that mentions a leaf, and afterwards be worth its terms
+        a_ = rnd.choice(p.E); z = p.newe(); p.emit("ex.smul %s 0 %s" % (z, a_))
+        if rnd.random() < .5:
+            g_ = rnd.choice(p.P); zp = p.newp(); p.emit("pt.smul %s 0 %s" % (zp, g_)); z2 = p.newe(); p.emit("ex.ip %s %s %s" % (z2, zp, rnd.choice(p.P)))
+        for e_ in rnd.sample(p.E, min(2, len(p.E))): p.emit("eval.ex %s" % e_)
+        p.emit("eval.ex %s" % z)
+        if rnd.random() < .5: c_ = p.newc(); p.emit("cons.lec %s %s 1" % (c_, z)); p.emit("eval.cons %s" % c_)
+    def ask(kind):
+        if kind == "cons" and p.C: p.emit("eval.cons %s" % rnd.choice(held_c if held_c and rnd.random() < .6 else p.C))
+        elif kind == "psd" and mats: p.emit("eval.psd %s" % rnd.choice(mats))
+        elif kind == "psddual" and mats: p.emit("eval.psddual %s" % rnd.choice(mats))
+        elif kind == "ex" and p.E: p.emit("eval.ex %s" % rnd.choice(p.E))
+        else: p.emit("eval.ptn %s" % rnd.choice(p.P))
     for _ in range(rnd.randint(3, 14)):
         r = rnd.random()
+        if rnd.random() < .15:
+            # ask, solve again (another solution), ask the same held object again: nothing may be remembered across solves
+            kinds = [rnd.choice(["cons", "ex", "pt", "psd", "psddual"]) for _ in range(rnd.randint(1, 3))]
+            st = rnd.getstate()
+            for k_ in kinds: ask(k_)
+            p.emit(rnd.choice(["solve.ok %d", "solve.ok %d", "solve.okp %d"]) % rnd.randint(0, 10**6))
+            st2 = rnd.getstate(); rnd.setstate(st)
+            for k_ in kinds: ask(k_)
+            rnd.setstate(st2)
         if r < .18:
             p.emit("solve.ok %d" % rnd.randint(0, 10**6))
             if rnd.random() < .5: p.emit("eval.ptn %s" % q); p.emit("eval.ptn %s" % lead); p.emit("eval.ptn %s" % other)
         elif r < .25: p.emit("solve.okp %d" % rnd.randint(0, 10**6))
         elif r < .29:
-            f = rnd.choice(p.F); p.sample_ops(f, 1)               # the model grows between solves
+            f = rnd.choice(p.F)
+            if rnd.random() < .35: p.setparam(f)                  # the user changes a class parameter between solves (same samples)
+            else: p.sample_ops(f, 1)                              # the model grows between solves
         elif r < .32:
             p.emit("dump.tables %s" % rnd.choice(p.F))
         elif r < .32: p.emit("solve.fail")
         elif r < .5 and p.E: p.emit("eval.ex %s" % rnd.choice(p.E))
+        elif r < .58 and mats: ask(rnd.choice(["psd", "psd", "psddual"]))
         elif r < .65 and p.C: p.emit("eval.cons %s" % rnd.choice(p.C))
         elif r < .78 and p.C: p.emit("eval.dual %s" % rnd.choice(p.C))
         elif r < .9:
@@ -546,7 +703,9 @@ def gen_oracle(seed):
     for _ in range(rnd.randint(4, 25)):
         r = rnd.random()
         if r < .2:
-            a, b = rnd.choice(p.F), rnd.choice(p.F); n = p.newf(); p.emit("fn.lin %s %s %s %s %s" % (n, rnd.choice(W), a, rnd.choice(W), b))
+            a, b = rnd.choice(p.F), rnd.choice(p.F); n = p.newf()
+            if rnd.random() < .35: p.emit("%s %s %s %s" % (rnd.choice(["fn.add", "fn.add", "fn.sub"]), n, a, rnd.choice([a, b])))   # f + f, f - f, f + g written directly
+            else: p.emit("fn.lin %s %s %s %s %s" % (n, rnd.choice(W), a, rnd.choice(W), b))
         elif r < .3: p.point()
         elif r < .35:
             a = rnd.choice(p.P); n = p.newp(); p.emit("pt.smul %s %s %s" % (n, rnd.choice(W), a))
@@ -566,6 +725,8 @@ def gen_tree(seed):
         n = p.newp(); p.emit("pt.leaf %s" % n)
     for _ in range(rnd.randint(1, 2)):
         n = p.newe(); p.emit("ex.leaf %s" % n)
+    if rnd.random() < .3: p.P.append("nullP")        # the module-level empty combinations are legitimate operands (accumulators)
+    if rnd.random() < .3: p.E.append("nullE")
     for _ in range(rnd.randint(4, 22)):
         r = rnd.random()
         if r < .10: a, b = rnd.choice(p.P), rnd.choice(p.P); n = p.newp(); p.emit("pt.add %s %s %s" % (n, a, b)); p.emit("dump.pt %s" % n)
@@ -598,12 +759,29 @@ def gen_tree(seed):
             elif k == 4: a = rnd.choice(p.E); n = p.newe(); p.emit("ex.iaddc %s %s %s" % (n, a, rnd.choice(TW))); p.emit("dump.ex %s" % n); p.emit("dump.ex %s" % a)
             elif k == 5: a = rnd.choice(p.E); n = p.newe(); p.emit("ex.imul %s %s %s" % (n, a, rnd.choice(TW))); p.emit("dump.ex %s" % n); p.emit("dump.ex %s" % a)
             else: a = rnd.choice(p.P); n = p.newp(); p.emit("pt.imul %s %s %s" % (n, a, rnd.choice(TW))); p.emit("dump.pt %s" % n); p.emit("dump.pt %s" % a)
+        elif r < .935:
+            # a matrix of expressions and python scalars, given as a list of lists or as an ndarray of objects
+            n_ = rnd.choice([1, 2, 2, 3]); cells = [(rnd.choice(["#1", "#0", "#2", "#-1", "#1/2"]) if rnd.random() < .4 else rnd.choice(p.E)) for _ in range(n_ * n_)]
+            nm = "%s%d" % (rnd.choice(["ma", "ml"]), len(p.lines)); p.emit("psd.new %s %d %s" % (nm, n_, " ".join(cells)))
+            if nm.startswith("ma") or not all(c_.startswith("#") for c_ in cells): p.emit("dump.psd %s" % nm)
         elif r < .95:
             a, b = rnd.choice(p.E), rnd.choice(p.E); c = p.newc(); p.emit("%s %s %s %s" % (rnd.choice(["cons.le", "cons.ge", "cons.eq"]), c, a, b)); p.emit("dump.cons %s" % c)
         else:
             a = rnd.choice(p.E); c = p.newc(); p.emit("%s %s %s %s" % (rnd.choice(["cons.lec", "cons.gec", "cons.eqc"]), c, a, rnd.choice(TW))); p.emit("dump.cons %s" % c)
+    if rnd.random() < .3:
+        # accumulation the way users write it: acc = <zero or any object>; acc += t1; acc += t2 ...  (the start object must not change)
+        start = rnd.choice(["nullE", "nullE", rnd.choice(p.E)]); acc = start
+        for _ in range(rnd.randint(1, 3)):
+            t_ = rnd.choice(p.E); n = p.newe(); p.emit("ex.iadd %s %s %s" % (n, acc, t_)); acc = n
+        p.emit("dump.ex %s" % acc); p.emit("dump.ex %s" % start)
+        startp = rnd.choice(["nullP", rnd.choice(p.P)]); accp = startp
+        for _ in range(rnd.randint(1, 2)):
+            t_ = rnd.choice(p.P); n = p.newp(); p.emit("pt.iadd %s %s %s" % (n, accp, t_)); accp = n
+        p.emit("dump.pt %s" % accp); p.emit("dump.pt %s" % startp)
     for x in p.P: p.emit("dump.pt %s" % x)
     for x in p.E: p.emit("dump.ex %s" % x)
+    if "nullE" not in p.E: p.emit("dump.ex nullE")
+    if "nullP" not in p.P: p.emit("dump.pt nullP")
     for x in rnd.sample(p.E, min(3, len(p.E))): p.emit("dump.finish %s" % x)     # symmetrize / prune / constant / remaining terms
     p.emit("dump.counters")
     return p.lines
@@ -641,6 +819,13 @@ def same(model, impl, strict=True, scale=0.0):
     if mo and io_:
         x, y = float(Fr(mo.group(1))), float(Fr(io_.group(1)))
         return abs(x - y) <= 1e-9 * max(1.0, abs(x), abs(y))
+    _M = r"ok (-?\d+(?:/\d+)?(?:[,;]-?\d+(?:/\d+)?)+)"
+    mm, im = re.fullmatch(_M, model), re.fullmatch(_M, impl)
+    if mm and im:            # a matrix of values (PSDMatrix.eval)
+        if re.sub(r"[^,;]", "", model) != re.sub(r"[^,;]", "", impl): return False
+        xs = [float(Fr(t)) for t in re.split(r"[,;]", mm.group(1))]; ys = [float(Fr(t)) for t in re.split(r"[,;]", im.group(1))]
+        big = max([abs(v) for v in xs + ys] + [1.0])
+        return all(abs(x - y) <= 1e-9 * big for x, y in zip(xs, ys))
     mc = [Fr(v) for _, v in _PAIR.findall(model)]
     if strict and mc and all(_exact_double(c) for c in mc):
         strip = lambda t: _PAIR.sub(lambda m: m.group(1) + ":" + str(Fr(m.group(2))), t)
